@@ -65,6 +65,9 @@ def run_stmts(ev, stmts, env):
     return val
 
 
+HELPERS = {}  # private free functions of expr/mod.rs (an extracted helper reads like the code it was extracted from); filled by run()
+
+
 def arms_of(fn):
     """Yield (arm, alternative pattern, result term, scrutinee term, env, ev) for every alternative of every arm of the
     top-level match; the result is the value the *function* returns when that alternative is taken."""
@@ -72,7 +75,7 @@ def arms_of(fn):
     stmts = fn.body["stmts"]
     for a in m["arms"]:
         for alt in split_or(a["pat"]):
-            ev = Ev()
+            ev = Ev(HELPERS)
             env = {}
             run_stmts(ev, stmts[:idx], env)
             scrut = ev.eval(m["e"], env)
@@ -640,6 +643,8 @@ def run(rep):
         "greatest/least) over-approximate.  Does NOT decide those primitives (C06, C11) nor the for-all over rows and predicates itself."
     )
     src = Src(facts.src_facts())
+    HELPERS.clear()
+    HELPERS.update({f.name: f.node for f in src.fns if f.file == "expr/mod.rs" and not f.self_ty and not f.test and f.body and (f.node.get("vis") or "") == ""})
     f1(rep, src)
     f2(rep, src)
     f3(rep, src)
